@@ -165,6 +165,7 @@ pub fn discover_packages_with_layout(
     let mut discovery_order = Vec::new();
     let mut package_dirs = HashMap::new();
     let mut queue: Vec<String> = entry_package.imports.iter().cloned().collect();
+    queue.sort_by(|a, b| b.cmp(a));
     let mut loaded = HashSet::new();
 
     loaded.insert(entry_name.clone());
@@ -187,7 +188,9 @@ pub fn discover_packages_with_layout(
                 package_name
             )));
         }
-        queue.extend(package.imports.iter().cloned());
+        let mut imports: Vec<String> = package.imports.iter().cloned().collect();
+        imports.sort_by(|a, b| b.cmp(a));
+        queue.extend(imports);
         loaded.insert(declared_name.clone());
         packages.insert(declared_name.clone(), package);
         discovery_order.push(declared_name.clone());
